@@ -10,6 +10,7 @@ THEOREMS = [
     ("EG.props.C06", "C06_sig_sound"),
     ("EG.props.C06", "C06_sig_mutation_rejected"),
     ("EG.props.C06", "C06_jwt_sound_complete"),
+    ("EG.props.C06", "C06_jwt_token_source"),
     ("EG.props.C06", "C06_jwt_mutation_rejected"),
     ("EG.props.C06", "C06_basic_exact"),
     ("EG.props.C06", "C06_headers_exact"),
